@@ -196,7 +196,9 @@ def allowed(fault_class: str, state: str, fault: str, hold: int):
             return set(), True   # (before the OPEN of the peer is read no hold time is negotiated: the open-wait timer runs whatever the configuration)
         if state == 'ESTABLISHED':
             return {(4, 0)}, True
-        # RFC 4271 8.2.2, HoldTimer_Expires in OpenSent / OpenConfirm: Hold Timer Expired (nothing unexpected was received)
+        if state in ('OPENSENT', 'CONNECT'):
+            # the wait for the OPEN of the peer is ExaBGP's own open-wait timer: property C12 states its expiry is answered 5/1; 4/0 names a timer too
+            return {(4, 0), (5, 1)}, True
         return {(4, 0)}, True
     if fault_class in ('teardown', 'notification+teardown'):
         return {(6, s) for s in range(0, 10)}, True
